@@ -2,25 +2,38 @@
 open Model
 open Codec
 
+let n_of_string (s : string) : n = dec_value (bytes_of_string s)
+let string_of_n (x : n) : string = string_of_bytes (dec x)
+
 let kind_of = function
   | "d" -> FDefault | "o" -> FOpt | "t" -> FDetailed | "w" -> FWithThread | "j" -> FJson | _ -> failwith "fmt kind"
 
 (* "<secs> <off> <micros> <kind> <colored> <level> <module|~> <file|~> <line|~> <thread|~> <msg>" *)
 let run_fmt (toks : string list) : string =
   match toks with
-  | [secs; off; micros; kind; colored; level; md; file; line; thread; msg] ->
+  | [secs; off; micros; kind; colored; level; md; file; line; thread; msg; kv] ->
+    let kvs = if kv = "~" then [] else
+        List.map (fun t -> match split_on '=' t with
+            | [k; v] when String.length v > 0 && v.[0] = 'i' -> (bytes_of_hex k, KInt (n_of_string (String.sub v 1 (String.length v - 1))))
+            | [k; v] when String.length v > 0 && v.[0] = 's' -> (bytes_of_hex k, KStr (bytes_of_hex (String.sub v 1 (String.length v - 1))))
+            | _ -> failwith "kv") (split_on ';' kv) in
     let r = { fr_level = nat_of_int (int_of_string level); fr_module = opt_hex md; fr_file = opt_hex file;
               fr_line = (if line = "~" then None else Some (n_of_int (int_of_string line)));
-              fr_thread = opt_hex thread; fr_msg = bytes_of_hex msg } in
+              fr_thread = opt_hex thread; fr_kv = kvs; fr_msg = bytes_of_hex msg } in
     let ts = ts_text (z_of_int (int_of_string secs)) (n_of_int (int_of_string micros)) (z_of_int (int_of_string off)) in
     let out = format_record (kind_of kind) (colored = "1") ts r in
     let base = hex_of_bytes out in
     if kind = "j" then
       let o = function None -> "~" | Some b -> hex_of_bytes b in
-      Printf.sprintf "%s dec[level=%s;thread=%s;module_path=%s;file=%s;line=%s;text=%s]" base
+      Printf.sprintf "%s dec[level=%s;thread=%s;module_path=%s;file=%s;line=%s;text=%s;kv=%s]" base
         (hex_of_bytes (bytes_of_string (match int_of_nat r.fr_level with 1 -> "ERROR" | 2 -> "WARN" | 3 -> "INFO" | 4 -> "DEBUG" | _ -> "TRACE")))
         (o r.fr_thread) (o r.fr_module) (o r.fr_file)
         (match r.fr_line with None -> "~" | Some n -> string_of_int (int_of_n n)) (hex_of_bytes r.fr_msg)
+        (* what the kv object decodes to: the map sorted by key, values as number or string *)
+        (match kv_map r.fr_kv with
+         | [] -> "~"
+         | m -> String.concat "," (List.map (fun (k, v) -> hex_of_bytes k ^ ":" ^
+                                                (match v with KInt n -> "i" ^ string_of_n n | KStr b -> "s" ^ hex_of_bytes b)) m))
     else base
   | _ -> failwith "fmt case"
 
@@ -31,7 +44,7 @@ let run_frame (toks : string list) : string =
     let ts = ts_text (z_of_int (int_of_string secs)) N0 (z_of_int (int_of_string off)) in
     let mk level msg md file line =
       { fr_level = nat_of_int (int_of_string level); fr_module = Some (bytes_of_string md); fr_file = Some (bytes_of_string file);
-        fr_line = Some (n_of_int line); fr_thread = None; fr_msg = bytes_of_hex msg } in
+        fr_line = Some (n_of_int line); fr_thread = None; fr_kv = []; fr_msg = bytes_of_hex msg } in
     let trees = List.map (fun tok ->
         match split_on ':' tok with
         | "R" :: level :: msg :: rest ->
